@@ -115,7 +115,7 @@ theorem varNodeInt_totE (m : Mgr) (hI : Inv m) (i : Int) : TotE m (findOrAdd i (
     exact varNode_totE m hI i.toNat
 
 /-- `find_or_add(name, -1, 1)` with a `str` level: `TypeError` after the request -/
-theorem findOrAddNonInt_totE (m : Mgr) (hI : Inv m) : TotE m (findOrAddNonInt m) := by
+theorem findOrAddNonInt_totE_r4 (m : Mgr) (hI : Inv m) : TotE m (findOrAddNonInt m) := by
   unfold findOrAddNonInt
   by_cases hc : m.ctx = true
   · rw [if_pos hc]
@@ -130,7 +130,7 @@ theorem findOrAddNonInt_totE (m : Mgr) (hI : Inv m) : TotE m (findOrAddNonInt m)
 /-! ### `_image` -/
 
 /-- `_image(u, v, umap, vmap, qvars, …)` on ARBITRARY arguments, any memo, any fuel -/
-theorem imageF_totE (umap vmap : Option (List (Int × Int))) (ubad vbad : List Int)
+theorem imageF_totE_r4 (umap vmap : Option (List (Int × Int))) (ubad vbad : List Int)
     (Q : List Nat) (fa : Bool) :
     ∀ (f : Nat) (u v : Int) (cache : HashMap (Int × Int) Int) (m : Mgr), Inv m → m.ctx = true →
       TotE m (imageF umap vmap ubad vbad Q fa f u v cache m) := by
@@ -200,7 +200,7 @@ theorem imageF_totE (umap vmap : Option (List (Int × Int))) (ubad vbad : List I
           · have kk : TotE m2 (if ubad.contains z then findOrAddNonInt m2
                 else findOrAdd (mapLvl umap z) (-1) 1 m2) := by
               split
-              · exact findOrAddNonInt_totE m2 hI2
+              · exact findOrAddNonInt_totE_r4 m2 hI2
               · exact varNodeInt_totE m2 hI2 _
             generalize (if ubad.contains z then findOrAddNonInt m2
                 else findOrAdd (mapLvl umap z) (-1) 1 m2) = rg at kk ⊢
@@ -225,7 +225,7 @@ theorem imageF_totE (umap vmap : Option (List (Int × Int))) (ubad vbad : List I
         | ok r => exact TotE.ok (s12.trans k3.1) _
 
 /-- the decorated body `_image_of`: ANY arguments -/
-theorem imageBody_totE (t s : Int) (rn : List (Key × Key)) (q : List Key) (fa : Bool)
+theorem imageBody_totE_r4 (t s : Int) (rn : List (Key × Key)) (q : List Key) (fa : Bool)
     (m : Mgr) (hI : Inv m) (hc : m.ctx = true) : TotE m (imageBody t s rn q fa m) := by
   have base : ∀ (r : Except Err Int), r ≠ .error .needsReordering →
       TotE m ((r, m) : Except Err Int × Mgr) := fun r hr => TotE.same hI r hr
@@ -251,7 +251,7 @@ theorem imageBody_totE (t s : Int) (rn : List (Key × Key)) (q : List Key) (fa :
       · next e heq => exact base _ (fun h => supportLevels_noSignal _ _ (by rw [heq]; simpa using h))
       split
       · exact base _ (by simp)
-      have k := imageF_totE (some (intPairs (resolveRename m1.tbl rn))) none
+      have k := imageF_totE_r4 (some (intPairs (resolveRename m1.tbl rn))) none
         (badKeys (resolveRename m1.tbl rn)) [] lv fa (2 * m1.nvars + 4) t s {} m1 hI hc
       generalize imageF (some (intPairs (resolveRename m1.tbl rn))) none
         (badKeys (resolveRename m1.tbl rn)) [] lv fa (2 * m1.nvars + 4) t s {} m1 = res at k ⊢
@@ -263,7 +263,7 @@ theorem imageBody_totE (t s : Int) (rn : List (Key × Key)) (q : List Key) (fa :
 /-! ### `_preimage_of` -/
 
 /-- `_copy_bdd` as `_preimage_of` calls it: ANY node, ANY level map, any memo -/
-theorem copyBddK_totE (lm : List (Nat × Key)) :
+theorem copyBddK_totE_r4 (lm : List (Nat × Key)) :
     ∀ (fu : Nat) (u : Int) (cache : HashMap Nat Int) (m : Mgr), Inv m → m.ctx = true →
       TotE m (copyBddK lm fu u cache m) := by
   intro fu
@@ -321,7 +321,7 @@ theorem copyBddK_totE (lm : List (Nat × Key)) :
         cases jnew with
         | name nm =>
           simp only
-          have k3 := findOrAddNonInt_totE m2 hI2
+          have k3 := findOrAddNonInt_totE_r4 m2 hI2
           generalize findOrAddNonInt m2 = res3 at k3 ⊢
           obtain ⟨r3, m3⟩ := res3
           cases r3 with
@@ -363,11 +363,11 @@ theorem copyBddK_totE (lm : List (Nat × Key)) :
               · exact TotE.ok s4 _
 
 /-- the branch of `_preimage_of` for partners that are not neighbours: ANY arguments -/
-theorem preimageFallback_totE (t s : Int) (rn : List (Key × Key)) (q : List Nat)
+theorem preimageFallback_totE_r4 (t s : Int) (rn : List (Key × Key)) (q : List Nat)
     (fa : Bool) (m : Mgr) (hI : Inv m) (hc : m.ctx = true) :
     TotE m (preimageFallback t s rn q fa m) := by
   unfold preimageFallback
-  have k1 := copyBddK_totE (preimageLevelMap m.nvars rn) (m.nvars + 2) s {} m hI hc
+  have k1 := copyBddK_totE_r4 (preimageLevelMap m.nvars rn) (m.nvars + 2) s {} m hI hc
   generalize copyBddK (preimageLevelMap m.nvars rn) (m.nvars + 2) s {} m = res1 at k1 ⊢
   obtain ⟨r1, m1⟩ := res1
   cases r1 with
@@ -387,7 +387,7 @@ theorem preimageFallback_totE (t s : Int) (rn : List (Key × Key)) (q : List Nat
       exact TotE.trans (k1.1.trans k2.1) (quantify_nested_totE m2 k2.1.inv c2 r2 _ fa)
 
 /-- the decorated body `_preimage_of`: ANY arguments -/
-theorem preimageBody_totE (t s : Int) (rn : List (Key × Key)) (q : List Key)
+theorem preimageBody_totE_r4 (t s : Int) (rn : List (Key × Key)) (q : List Key)
     (fa : Bool) (m : Mgr) (hI : Inv m) (hc : m.ctx = true) : TotE m (preimageBody t s rn q fa m) := by
   have base : ∀ (r : Except Err Int), r ≠ .error .needsReordering →
       TotE m ((r, m) : Except Err Int × Mgr) := fun r hr => TotE.same hI r hr
@@ -422,7 +422,7 @@ theorem preimageBody_totE (t s : Int) (rn : List (Key × Key)) (q : List Key)
           exact supportLevels_noSignal _ _ hs
         · cases heq
       split
-      · have k := imageF_totE none (some (intPairs (resolveRename m1.tbl rn))) []
+      · have k := imageF_totE_r4 none (some (intPairs (resolveRename m1.tbl rn))) []
           (badKeys (resolveRename m1.tbl rn)) lv fa (2 * m1.nvars + 4) t s {} m1 hI hc
         generalize imageF none (some (intPairs (resolveRename m1.tbl rn))) []
           (badKeys (resolveRename m1.tbl rn)) lv fa (2 * m1.nvars + 4) t s {} m1 = res at k ⊢
@@ -437,6 +437,6 @@ theorem preimageBody_totE (t s : Int) (rn : List (Key × Key)) (q : List Key)
           · simp only [hf, if_false]
             exact k.err_of rfl
         | ok rc => simp only; exact TotE.ok k.1 _
-      · exact preimageFallback_totE t s _ lv fa m1 hI hc
+      · exact preimageFallback_totE_r4 t s _ lv fa m1 hI hc
 
 end DD
